@@ -190,10 +190,18 @@ def validFloatTok (t : Txt) : Bool :=
       | d => allDigits1 d
   okInt && okFr && okEx && (fr.isSome || ex.isSome)
 
+/-- CPython's `sys.int_info.default_max_str_digits`: `int(str)` (and so `json.load`) raises `ValueError` for an integer literal with more
+decimal digits; `str(int)` (and so `json.dumps`) likewise for an integer that needs more -/
+def maxStrDigits : Nat := 4300
+
 def parseNumTok (t : Txt) : Option J :=
   match t with
-  | 45 :: r => if validNatTok r then some (.int (-(digitsVal r 0 : Int))) else if validFloatTok t then some (.flt t) else none
-  | r => if validNatTok r then some (.int (digitsVal r 0)) else if validFloatTok t then some (.flt t) else none
+  | 45 :: r =>
+    if validNatTok r then (if r.length ≤ maxStrDigits then some (.int (-(digitsVal r 0 : Int))) else none)
+    else if validFloatTok t then some (.flt t) else none
+  | r =>
+    if validNatTok r then (if r.length ≤ maxStrDigits then some (.int (digitsVal r 0)) else none)
+    else if validFloatTok t then some (.flt t) else none
 
 def dictSet (kvs : List (PStr × J)) (k : PStr) (v : J) : List (PStr × J) :=
   match kvs with
